@@ -430,3 +430,31 @@ func TestC10Requests(t *testing.T) {
 	r.SetExhaustive(true)
 	r.Done()
 }
+
+// TestC10StaleUsable: "returns an error only when the origin call itself
+// failed and no stale response may be used" - the stale-if-error scenarios
+// with a transport error, judged under C10.
+func TestC10StaleUsable(t *testing.T) {
+	r := run.Start(t, "C10", "stale-usable")
+	defer r.Finish()
+	cases := c13Cases(false)
+	k := 0
+	for _, c := range cases {
+		if c.Failure != "err" {
+			continue
+		}
+		i := k
+		k++
+		if !r.Thorough() && i%4 != 0 {
+			continue
+		}
+		if !r.Mine(i) {
+			continue
+		}
+		r.Begin(i, c)
+		if fail := r.Bubble(func() { c13Run(r, c) }); fail != "" {
+			r.Violation("hang", "bubble-deadlock", "bubble failed: "+firstLine(fail), c)
+		}
+	}
+	r.Done()
+}
